@@ -216,7 +216,7 @@ def part(ctx, gen_mesh):
         p = os.path.join(d, 'm%d.vtp' % m)
         written = write_vtp(p, ctx.rng, vs, polys)
         files.append((p, 'vtp', [], (written, polys))); note('vtp')
-    # --- witnesses of the known finding impl:stl-reader-eof-handling (getSignificantLine at end of file)
+    # --- regression cases of the defect fixed by c5f220f3 (getSignificantLine at end of file; found by this check): must load as the model says
     WFACET = 'facet normal 0 0 1\nouter loop\nvertex 0 0 0\nvertex 1 0 0\nvertex 0 1 0\nendloop\nendfacet'
     for name, text in (('w_eof_newline.stl', 'solid a\n' + WFACET + '\n'),                 # no endsolid, final newline: EOF is allowed after 2 lines
                        ('w_eof_lastline.stl', 'solid a\n' + WFACET)):                      # last line without newline
@@ -251,8 +251,9 @@ def part(ctx, gen_mesh):
             throws += 1
             if a_throw != b_throw:
                 raw = open(p, 'rb').read()
-                # known finding: the line reader of the STL loader mistakes "no more lines" for a read error when the file ends
-                # with a newline, and drops a last line that has no newline
+                # the defect fixed by c5f220f3 (the line reader mistook "no more lines" for a read error when the file ends with a
+                # newline, and dropped a last line without newline): a recurrence is reported under its own key, which is no longer
+                # a known finding, i.e. as a VIOLATION
                 if a_throw and kind in ('asc', 'bin') and (('error while reading file' in a[0] and raw.endswith(b'\n')) or
                                                             ('unexpected end of file' in a[0] and not raw.endswith(b'\n'))):
                     eof_known.append((p, kind, a[:1], b[:1]))
@@ -272,7 +273,7 @@ def part(ctx, gen_mesh):
         'interleaved indices, i/t/n forms, continuation lines) and VTP; evaluation = one file loaded and compared with the extracted reader (VTP: with what was written)' % nmesh
     ctx.extra['mesh_files']['stl_reader_eof_handling_hits'] = [os.path.basename(x[0]) for x in eof_known]
     for p, kind, a, b in eof_known[:1]:
-        ctx.report('impl:stl-reader-eof-handling', 'the STL loader refuses a file the format model accepts, at end of file (%s): %s' % (os.path.basename(p), a[0][:300]),
+        ctx.report('impl:stl-reader-eof-handling', 'REGRESSION of fix c5f220f3: the STL loader refuses a file the format model accepts, at end of file (%s): %s' % (os.path.basename(p), a[0][:300]),
                    {'failing_input': p, 'impl': a, 'model': b})
     for p, kind, a, b in dis[:1]:
         ctx.broken.append(('correspondence:C36io', 'PolygonalMesh loader and extracted reader differ on %s (%s): impl=%s model=%s' % (os.path.basename(p), kind, a, b)))
